@@ -363,7 +363,7 @@ def run_c03_c09(r: Run, prop):
     # a composition whose mass memo is stale (fmass, then counts written through the public field): fixed requests only
     # (the default and fraction requests size themselves from mass(), which the memo answers)
     for i, (c, req, z, ca, form) in enumerate(list(cases)):
-        if i % 7 == 3 and req.startswith("n:") and form in ("vec", "map") and not (len(c) == 1 and c[0][1] == 1):
+        if i % 7 == 3 and req.startswith("n:") and int(req[2:]) >= 1 and form in ("vec", "map") and not (len(c) == 1 and c[0][1] == 1):
             cases.append((c, req, z, ca, "s" + form))
     lines = [f"brain\t{pairs_of(c)}\t{req}\t{z}\t{fr(ca)}\t{form}" for c, req, z, ca, form in cases]
     impl = r.impl("brain", lines, stall=120)
